@@ -3,6 +3,7 @@ package main
 // check.go — the registered check: one property, all its claimed obligations, evidence, verdict.
 
 import (
+	"sync/atomic"
 	"reflect"
 	"bufio"
 	"encoding/json"
@@ -200,6 +201,11 @@ func cmdCheck(args []string) int {
 		jobs = append(jobs, pj)
 	}
 	// discharge
+	var undischarged, skipped int64
+	failFast := int64(16)
+	if *tier == "thorough" {
+		failFast = 64
+	}
 	var fns []func()
 	for _, j := range jobs {
 		j := j
@@ -207,7 +213,17 @@ func cmdCheck(args []string) int {
 			continue
 		}
 		fns = append(fns, func() {
+			if atomic.LoadInt64(&undischarged) >= failFast {
+				// the run already reports violations: the remaining obligations are not attempted
+				j.O.Status = "unknown:not-attempted"
+				j.O.Model = fmt.Sprintf("not attempted: %d obligations of this run already failed to discharge", failFast)
+				atomic.AddInt64(&skipped, 1)
+				return
+			}
 			r := discharge(j.Script(), timeout, false)
+			if r.Status != "unsat" {
+				atomic.AddInt64(&undischarged, 1)
+			}
 			j.O.Solver, j.O.TimeMS = r.Solver, r.MS
 			switch r.Status {
 			case "unsat":
@@ -258,6 +274,7 @@ func cmdCheck(args []string) int {
 	known := loadKnownFindings(filepath.Join(*verif, "known_findings.txt"))
 	total, proved, structural := 0, 0, 0
 	var failed []*Job
+	notAttempted := 0
 	structSamples := 0
 	kfHit := map[int]bool{}
 	samples := []map[string]any{}
@@ -275,6 +292,10 @@ func cmdCheck(args []string) int {
 			if len(samples) < 8 && !j.Struct {
 				samples = append(samples, map[string]any{"obligation": j.O.Name, "kind": j.O.Kind, "solver": j.O.Solver, "ms": j.O.TimeMS, "at": j.O.Pos})
 			}
+			continue
+		}
+		if j.O.Status == "unknown:not-attempted" {
+			notAttempted++
 			continue
 		}
 		isKnown := false
@@ -295,6 +316,9 @@ func cmdCheck(args []string) int {
 		}
 	}
 	violations := 0
+	if notAttempted > 0 {
+		fmt.Printf("NOTE: %d obligations not attempted after %d failed to discharge (fail-fast); the run is a violation report, not a coverage record\n", notAttempted, failFast)
+	}
 	os.MkdirAll(filepath.Join(*verif, "replay", P), 0o755)
 	for _, j := range failed {
 		violations++
@@ -316,7 +340,7 @@ func cmdCheck(args []string) int {
 	ev.WallS = time.Since(t0).Seconds()
 	ev.Violations = violations
 	cov := map[string]any{
-		"obligations": total - len(kfHit), "discharged": proved,
+		"obligations": total - len(kfHit), "discharged": proved, "not_attempted_fail_fast": notAttempted,
 		"obligations_generated":      total,
 		"known_finding_obligations":  len(kfHit),
 		"inactive_clauses":           len(e.Specs.Inactive),
@@ -339,6 +363,7 @@ func cmdCheck(args []string) int {
 		"integer_semantics":         "mathematical integers with the declared type's range as a fact on inputs; overflow NOT checked (unchecked assumption)",
 		"undecided_clauses":         undecidedClauses[P],
 		"bounded":                   []string{},
+		"assumed_frames":            assumedFrames(e, keys),
 	}
 	for k, v := range map[string]any{"unclaimed_safety_obligations": unclaimed, "trusted_function_contracts": trustedFns, "functions_under_contract": fnsUnder, "reachability_covers": covers} {
 		if rv := reflect.ValueOf(v); !rv.IsValid() || (rv.Kind() == reflect.Slice && rv.IsNil()) {
@@ -424,12 +449,46 @@ func assumptionsFor(e *Engine, keys []string) []string {
 	for _, c := range cs {
 		r = append(r, "callee contract used (proved where that function is checked): "+c)
 	}
+	for _, a := range assumedFrames(e, keys) {
+		r = append(r, a)
+	}
 	r = append(r,
 		"calls without a contract: result and every heap class the callee may write (static MOD analysis) are havocked; small loop-free helpers are inlined",
 		"pointer receivers are non-nil (implicit precondition, obliged at static call sites as nilrecv)",
 		"goroutines/channels/select are not interleaved; defer effects applied at RunDefers",
 		"termination only where a decreases clause is discharged",
 	)
+	return r
+}
+
+// assumedFrames: assigns/pure clauses relied upon by the functions of this property whose own frame
+// obligation is excepted (not proved) in the function that carries the clause.
+func assumedFrames(e *Engine, keys []string) []string {
+	seen := map[string]bool{}
+	for _, k := range keys {
+		seen[k] = true
+		for cal := range e.usedC[k] {
+			seen[cal] = true
+		}
+	}
+	var r []string
+	for k := range seen {
+		sp := e.Specs.Funcs[k]
+		if sp == nil || !sp.HasAssigns {
+			continue
+		}
+		fe := sp.frameExcepted()
+		if len(fe) == 0 {
+			continue
+		}
+		var hs []string
+		for h := range fe {
+			hs = append(hs, h)
+		}
+		sort.Strings(hs)
+		r = append(r, fmt.Sprintf("ASSUMED frame (unproved): callers rely on the assigns/pure clause of %s, whose frame obligation does not discharge for %d heap classes (%s)", k, len(hs), truncate(strings.Join(hs, ", "), 160)))
+	}
+	sort.Strings(r)
 	return r
 }
 
